@@ -132,6 +132,7 @@ fn interpret(c: &IterCase, strict_only: bool, st: &mut Stats) -> Result<Outcome,
         None => "legals()".to_string(),
     }];
     let mut tainted_mid = false;
+    let mut fork_overflow = false;
     let mut post_next = false;
     let mut mutated_after_next = false;
     let mut classes: Vec<&'static str> = vec![];
@@ -146,6 +147,12 @@ fn interpret(c: &IterCase, strict_only: bool, st: &mut Stats) -> Result<Outcome,
             if tainted_mid && !strict_only {
                 if !st.frozen { st.excluded += 1; st.class("excluded: divergence after a mask/removal op issued mid-promotion (recorded finding ii)"); }
                 return Ok(Outcome { tainted_mid: true, strict_dead: false });
+            }
+            if fork_overflow && !strict_only {
+                // more combinations of "removed exactly the argument" / "removed all four" than the
+                // model tracks: the explanation by recorded finding (i) may be among the dropped ones
+                if !st.frozen { st.excluded += 1; st.class("excluded: more forks of recorded finding (i) than the model tracks"); }
+                return Ok(Outcome { tainted_mid: false, strict_dead: true });
             }
             return Err(format!("C10 at `{fen}` ops [{}]: {d}", trace.join(", ")));
         }};
@@ -264,7 +271,7 @@ fn interpret(c: &IterCase, strict_only: bool, st: &mut Stats) -> Result<Outcome,
                     let mut a = cd.clone();
                     a.r.retain(|x| *x != mv);
                     next_cands.push(a);
-                    if hits_promotions && !strict_only && next_cands.len() < 8 {
+                    if hits_promotions && !strict_only {
                         // recorded finding (i): all four promotions of that destination disappear
                         let mut b = cd.clone();
                         b.r.retain(|x| !(x.from == mv.from && x.to == mv.to));
@@ -273,6 +280,14 @@ fn interpret(c: &IterCase, strict_only: bool, st: &mut Stats) -> Result<Outcome,
                             next_cands.push(b);
                         }
                     }
+                }
+                // different fork histories often meet in the same remaining set: keep one of each
+                // (a strict one if there is one)
+                next_cands.sort_by(|a, b| a.r.cmp(&b.r).then(b.strict.cmp(&a.strict)));
+                next_cands.dedup_by(|b, a| a.r == b.r);
+                if next_cands.len() > 512 {
+                    next_cands.truncate(512);
+                    fork_overflow = true;
                 }
                 cands = next_cands;
                 // the boolean result of remove_move is documented nowhere and the property does not
